@@ -225,6 +225,10 @@ func Draw(t *sim.Tape, p DrawParams) *Workload {
 		if p.Conn && t.Next(2) == 0 {
 			st.Ops = append(st.Ops, simfn.Op{"op": "conn", "key": []string{"user", "pass", "extra"}[t.Next(3)], "value": "v-" + st.Name})
 		}
+		if p.PTConn && i > 0 && t.Next(3) == 0 {
+			// a later step redacts a key an earlier step may have set
+			st.Ops = append(st.Ops, simfn.Op{"op": "connDrop", "key": []string{"user", "pass", "extra"}[t.Next(3)]})
+		}
 		w.Steps = append(w.Steps, st)
 	}
 	kinds := []string{"Thing", "Gadget"}
